@@ -331,6 +331,16 @@ FinalRules(s, e) ==
   IN
   \* C03: in an auto-refreshing container that ended by Wait, the last frame holds every
   \* bar that stays, once (dup rule), in its final state, and none of the bars that leave
+  \* C17 where frames are drawn on request: a bar queued behind another is "always eventually displayed" - after its Add
+  \* has returned and its predecessor has been drawn in a terminal state, three further frames are more than the hand-over
+  \* takes (an orphaned successor of the recorded findings keeps its mechanism in the name)
+  (LET TermIn(k, b) == \E i \in DOMAIN F[k].groups : F[k].groups[i].b = b /\ Terminal(F[k].groups[i].fl)
+       After(b) == {k \in DOMAIN F : F[k].cyc > s.bars[b].ret /\ \E j \in 1..(k - 1) : TermIn(j, s.bars[b].after)}
+       neverM == {b \in okb : s.bars[b].after # "" /\ s.bars[b].ret # 0 /\ b \notin s.shown /\ Cardinality(After(b)) >= 3}
+   IN IF s.cfg.refresh = "manual" /\ NormalEnd(s) /\ ~s.fault /\ ~s.cfg.narrow /\ neverM # {}
+      THEN <<B("C17", "queued-never-shown" \o (IF neverM \subseteq Doomed(s) THEN "/orphaned-successor" ELSE ""), e, ToString(neverM))>>
+      ELSE <<>>)
+  \o
   (IF FinalRendered(s)
    THEN (LET stay == {b \in okb : ~Leaves(s, b) /\ ~Queued(s, b)}
              miss == stay \ lastS
